@@ -279,6 +279,8 @@ def make_cases(rng, tier):
     # singlet UHF with broken spin symmetry (alpha and beta orbitals differ although ms = 0)
     mol_case("mf", "H4stretched", "sto-6g", "uhf", fci=(tier == "thorough"), rephase=rng.random() < 0.5)
     mol_case("mf", "H4chain", "6-31g", "rhf", df=True, fci=(tier == "thorough"))
+    # density fitting whose auxiliary basis pyscf has to generate itself (no predefined fitting set for this orbital basis)
+    mol_case("mf", "H4chain", "sto-6g", "rhf", df=True, fci=False)
     # coupled cluster
     mol_case("ccsd", rng.choice(["H4chain", "H4ring"]), "6-31g", "rhf", rephase=True, chol_cut=1e-8)
     mol_case("ccsd", "LiH", "sto-3g" if tier == "quick" else "6-31g", "rhf", nf=1, rephase=True, chol_cut=1e-8)
